@@ -1,6 +1,6 @@
 module verifharness
 
-go 1.19
+go 1.22
 
 require (
 	filippo.io/age v0.0.0
